@@ -263,6 +263,83 @@ def flt_units(tier):
         n += 1
 
 
+# ------------------------------------------------------------------------------------------ loops across table growth
+def grow_units(tier):
+    """a for / while loop whose body makes the engines' variable tables grow while the loop is running: the loop variable,
+    the accumulator and the bound must survive every reallocation.  The body recurses `depth` levels (three bindings per
+    level); the number of bindings declared BEFORE the loop sweeps a window, so every capacity 2^k up to 8192 is crossed
+    at some point of some unit (three bindings x 950 levels = 2850 bindings on top of the program's own).  Each unit is its own program (the tables' sizes are the point)."""
+    n = 0
+    for depth in ((40, 400, 950) if tier == "quick" else (10, 40, 150, 400, 700, 950)):      # below every engine's call-depth limit (1024)
+        for pad in ((0, 3, 7) if tier == "quick" else (0, 1, 2, 3, 5, 7, 11, 15)):
+            for loop in ("for", "while"):
+                uname = "grow_%d" % n
+                n += 1
+                decls = ("fn %s_rec(d: int, x: int) -> int {\n    let a: int = (+ x 1)\n    if (<= d 0) { return a } else {\n        let b: int = (%s_rec (- d 1) a)\n        return (- b 1)\n    }\n}\n"
+                         "shadow %s_rec { assert (== (%s_rec 3 5) 6) }\n" % (uname, uname, uname, uname))
+                body = "".join("    let pad%d: int = %d\n" % (i, i) for i in range(pad))
+                body += "    let mut acc: int = 0\n"
+                if loop == "for":
+                    body += "    for i in (range 0 4) {\n        let r: int = (%s_rec %d i)\n        set acc (+ acc (+ r (* i 1000)))\n        (println i)\n    }\n" % (uname, depth)
+                else:
+                    body += "    let mut i: int = 0\n    while (< i 4) {\n        let r: int = (%s_rec %d i)\n        set acc (+ acc (+ r (* i 1000)))\n        (println i)\n        set i (+ i 1)\n    }\n" % (uname, depth)
+                body += "    (println acc)\n    return (% acc 250)\n"
+                # rec(d, x) = x + 1 whatever d (every level adds one going down and takes one off coming back)
+                acc = sum((i + 1) + 1000 * i for i in range(4))
+                exp = "".join("%d\n" % i for i in range(4)) + "%d\n" % acc
+                yield {"name": uname, "decls": decls, "body": body, "expected": exp, "ret": acc % 250, "own_program": True,
+                       "what": "%s loop around a recursion %d deep, %d bindings before the loop" % (loop, depth, pad)}
+
+
+# ------------------------------------------------------------------------------------------ leaving a scope early
+def lsh_units(tier):
+    """a block that declares a local shadowing an outer variable and is then left EARLY (break / continue / return from a
+    nested block): the outer variable must be the one seen afterwards - in the next iteration, after the loop, and in
+    the caller."""
+    n = 0
+    for loop in ("while", "for"):
+        for ctl in ("break", "continue", "none"):
+            for where in ("if-in-loop", "nested-if-in-loop", "match-arm-in-loop"):
+                for k in (0, 1, 3):
+                    uname = "lsh_%d" % n
+                    n += 1
+                    un = "Lshu%d" % (n - 1)
+                    decls = "union %s { A { v: int }, B { s: string } }\n" % un
+                    c = {"break": "if (== i %d) { break } else {}" % k, "continue": "if (== i %d) { continue } else {}" % k, "none": "(println 0)"}[ctl]
+                    inner = "let x: int = (+ (* i 10) 5)\n            (println x)\n            %s\n            (println (+ x 1))" % c
+                    if where == "loop-body":
+                        blk = "        " + inner.replace("\n            ", "\n        ") + "\n"
+                    elif where == "if-in-loop":
+                        blk = "        if true {\n            %s\n        } else {}\n" % inner
+                    elif where == "nested-if-in-loop":
+                        blk = "        if true {\n            if (>= i 0) {\n            %s\n            } else {}\n        } else {}\n" % inner
+                    else:
+                        blk = "        match u {\n            A(a) => {\n            %s\n            }\n            B(b) => { (println b.s) }\n        }\n" % inner
+                    body = "    let u: %s = %s.A { v: 1 }\n    let mut x: int = 1000\n" % (un, un)
+                    if loop == "while":
+                        body += "    let mut j: int = 0\n    while (< j 4) {\n        let i: int = j\n        set j (+ j 1)\n        (println x)\n" + blk + "        set x (+ x 1)\n    }\n"
+                    else:
+                        body += "    for i in (range 0 4) {\n        (println x)\n" + blk + "        set x (+ x 1)\n    }\n"
+                    body += "    (println x)\n    return (%s x 7)\n" % "%"
+                    out = []
+                    x = 1000
+                    for i in range(4):
+                        out.append("%d\n" % x)
+                        ix = i * 10 + 5
+                        out.append("%d\n" % ix)
+                        if ctl == "break" and i == k:
+                            break
+                        if ctl == "continue" and i == k:
+                            continue
+                        if ctl == "none":
+                            out.append("0\n")
+                        out.append("%d\n" % (ix + 1))
+                        x += 1
+                    out.append("%d\n" % x)
+                    yield {"name": uname, "decls": decls, "body": body, "expected": "".join(out), "ret": x % 7,
+                           "what": "inner 'let x' shadowing an outer mutable x in [%s] of a %s loop, left by %s at i==%d" % (where, loop, ctl, k)}
+
+
 def units(tier):
-    for u in itertools.chain(esc_units(tier), loop_units(tier), size_units(tier), evo_units(tier), mhist_units(tier), flt_units(tier)):
+    for u in itertools.chain(esc_units(tier), loop_units(tier), size_units(tier), evo_units(tier), mhist_units(tier), flt_units(tier), grow_units(tier), lsh_units(tier)):
         yield u
